@@ -354,7 +354,8 @@ def main(tier):
     # families (MT1: SEQUENCE + CHOICE, inside the modelled algebra; MT2: SET) of lib/c03_tagmap.py
     sm = U.string_module()
     mt1, mt2 = TM.modules(tier)
-    build_modules([sm, mt1, mt2], tag="c03x", moddrv_extra=os.path.join(HARNESS, "moddrv_c03.inc"))
+    mo5 = RG.wide_module()
+    build_modules([sm, mt1, mt2, mo5], tag="c03x", moddrv_extra=os.path.join(HARNESS, "moddrv_c03.inc"))
     mods += [sm, mt1]
     sc = []
     if sm.get("exe"):
@@ -397,6 +398,7 @@ def main(tier):
     uper_part(run, model, mods, cases, rng, tier)
     log("C03: uper %.1fs" % (time.time() - t0)); t0 = time.time()
     oer_part(run, model, mods, cases, rng, tier)
+    RG.wide_oer_part(run, mo5, rng, tier)
     log("C03: oer %.1fs" % (time.time() - t0)); t0 = time.time()
     xer_part(run, mods, cases, rng, tier)
     log("C03: xer %.1fs" % (time.time() - t0))
